@@ -68,6 +68,8 @@ impl Stack {
         }
 
         self.0.truncate(1);
+        self.0[0].exprs_to_eval.clear();
+        self.0[0].bindings_next_block.clear();
         self.0[0].evalled_values.truncate(1);
         self.0[0].bindings.block_bindings.truncate(1);
     }
